@@ -264,6 +264,10 @@ Section Proto.
 
   Definition the_result (q : proc) : res := mkRes (r_err q) (r_out q).
 
+  (* a file opened for writing only grows *)
+  Definition grows {A} (f : fstate A) (n : nat) : bool :=
+    match f with Writing _ m => Nat.leb m n | _ => false end.
+
   (* an exception raised at the checkpoint of pc c: where control goes *)
   Definition exc_target (p : pid) (q : proc) (g : glob) : proc * glob :=
     let g1 := if holds_s (pc q) then set_slock (unlock p (slock g)) g else g in
@@ -359,9 +363,12 @@ Section Proto.
         Some (set_ret (Some (match job_result q g with Some r => Returned r | None => NoResult end)) (set_pc Done q), g)
     | RelExc, ARaisedOut => Some (set_ret (Some Raised) (set_pc Done q), g)
     (* ---- environment: bytes reach the disk while a file is open *)
-    | Sv true SRO, AProgress n | Sv true SRD, AProgress n => Some (q, set_resf (Writing (the_result q) n) g)
-    | Sv _ SJO, AProgress n | Sv _ SJD, AProgress n => Some (q, set_jobf (Writing tt n) g)
-    | Err2, AProgress n | Err3, AProgress n => Some (q, set_errf (Writing tt n) g)
+    | Sv true SRO, AProgress n | Sv true SRD, AProgress n =>
+        if grows (resf g) n then Some (q, set_resf (Writing (the_result q) n) g) else None
+    | Sv _ SJO, AProgress n | Sv _ SJD, AProgress n =>
+        if grows (jobf g) n then Some (q, set_jobf (Writing tt n) g) else None
+    | Err2, AProgress n | Err3, AProgress n =>
+        if grows (errf g) n then Some (q, set_errf (Writing tt n) g) else None
     (* ---- environment: an exception at the checkpoint just passed *)
     | Idle, AExc | Done, AExc | ExcHold, AExc | RelHit, AExc | RelOk, AExc | RelExc, AExc => None
     | _, AExc => Some (exc_target p q g)
